@@ -1,5 +1,11 @@
 package flight12
 
+// GENERATED from harness/C14/offer.go (plus zzRaw / zzClientKey / zzHS from resume.go and store.go) (identifiers renamed zz -> zzRo; only zzClientResumeDecision is kept as an entry).
+// C03: a resumed connection is authenticated by the stored master secret alone (no Certificate, no signature, no PSK
+// exchange), so "no established session without the required credential" needs the client to key an abbreviated
+// handshake from exactly the secret its store returned for the offered id - also after one or two cookie rounds.
+// A client that empties the secret on a repeated HelloVerifyRequest accepts a Finished anyone can compute (seed C03k-1).
+
 //symgo:pkg github.com/pion/dtls/v3/internal/flight/flight12
 //symgo:param OID quick=2 thorough=3
 //symgo:param OSEC quick=2 thorough=3
@@ -15,9 +21,9 @@ import (
 	"github.com/pion/dtls/v3/pkg/protocol/handshake"
 )
 
-type zzConstReader struct{}
+type zzRoConstReader struct{}
 
-func (zzConstReader) Read(p []byte) (int, error) {
+func (zzRoConstReader) Read(p []byte) (int, error) {
 	for i := range p {
 		p[i] = 0x5a
 	}
@@ -35,12 +41,11 @@ func (zzConstReader) Read(p []byte) (int, error) {
 // internal_error alert and no ClientHello. Consequence used by fatal_drops_session: once the entry under the
 // session key is deleted, the session is not offered any more.
 //
-//symgo:entry covers=offered,no_store,empty_store,other_key,store_error,offered_empty_secret
-func zzClientOffer() {
-	rand.Reader = zzConstReader{}
-	client := zzNewPeer(true)
-	client.conn = zzConn{key: zzClientKey}
-	store := &zzStore{}
+func zzRoClientOffer() {
+	rand.Reader = zzRoConstReader{}
+	client := zzRoNewPeer(true)
+	client.conn = zzRoConn{key: zzRoClientKey}
+	store := &zzRoStore{}
 	mode := zzsymChoice("store", 5) // 0 none, 1 empty, 2 this key, 3 other key, 4 Get fails
 	if mode != 0 {
 		store.attach(client.cfg)
@@ -49,7 +54,7 @@ func zzClientOffer() {
 	if mode == 2 || mode == 3 {
 		id = zzsymBytes("stored_id", 1+zzsymChoice("idlen", zzsymParam("OID")))
 		secret = zzsymBytes("stored_secret", zzsymChoice("seclen", zzsymParam("OSEC")+1))
-		key := zzClientKey
+		key := zzRoClientKey
 		if mode == 3 {
 			key = []byte("10.0.0.1:4444_other")
 		}
@@ -64,10 +69,10 @@ func zzClientOffer() {
 	if mode == 0 {
 		zzsymAssert(len(store.gets) == 0, "no_store_no_lookup")
 	} else {
-		zzsymAssert(len(store.gets) == 1 && zzsymEqBytes(store.gets[0], zzClientKey), "store_asked_once_with_session_key")
+		zzsymAssert(len(store.gets) == 1 && zzsymEqBytes(store.gets[0], zzRoClientKey), "store_asked_once_with_session_key")
 	}
 	if mode == 4 {
-		a = zzAlertOf(a, err)
+		a = zzRoAlertOf(a, err)
 		zzsymAssert(len(pkts) == 0 && err != nil, "store_error_no_client_hello")
 		zzsymAssert(a != nil && a.Level == alert.Fatal && a.Description == alert.InternalError, "store_error_fatal_alert")
 		zzsymCover("store_error")
@@ -114,21 +119,21 @@ func zzClientOffer() {
 // make the client key the connection from the stored secret.
 //
 //symgo:entry covers=abbreviated,full_other_id,full_empty_id,full_nothing_offered,full_other_length,after_cookie_round
-func zzClientResumeDecision() {
-	rand.Reader = zzConstReader{}
-	client := zzNewPeer(true)
-	client.conn = zzConn{key: zzClientKey}
-	store := &zzStore{}
+func zzRoClientResumeDecision() {
+	rand.Reader = zzRoConstReader{}
+	client := zzRoNewPeer(true)
+	client.conn = zzRoConn{key: zzRoClientKey}
+	store := &zzRoStore{}
 	store.attach(client.cfg)
 	offered := zzsymChoice("client_has_session", 2) == 1
 	var id, secret []byte
 	if offered {
 		id = zzsymBytes("stored_id", 1+zzsymChoice("idlen", zzsymParam("OID")))
 		secret = zzsymBytes("stored_secret", 1+zzsymChoice("seclen", zzsymParam("OSEC")))
-		store.put(zzClientKey, id, secret)
+		store.put(zzRoClientKey, id, secret)
 	}
-	server := zzNewPeer(false) // only a cache to receive the ClientHello
-	if _, a, err := zzSend(client, server, Flight1, nil); a != nil || err != nil {
+	server := zzRoNewPeer(false) // only a cache to receive the ClientHello
+	if _, a, err := zzRoSend(client, server, Flight1, nil); a != nil || err != nil {
 		zzsymFail("client_hello_failed")
 	}
 
@@ -144,11 +149,11 @@ func zzClientResumeDecision() {
 			Version: protocol.Version1_2, Cookie: zzsymBytes("cookie", 3),
 		}}
 		hvr.Header.MessageSequence = uint16(r)
-		client.cache.Push(zzRaw(hvr), 0, uint16(r), handshake.TypeHelloVerifyRequest, false)
-		next, a, err := zzRecv(client, cur)
+		client.cache.Push(zzRoRaw(hvr), 0, uint16(r), handshake.TypeHelloVerifyRequest, false)
+		next, a, err := zzRoRecv(client, cur)
 		zzsymAssert(next == Flight3 && a == nil && err == nil, "hello_verify_request_restarts_with_flight3")
 		cur = Flight3
-		if _, a, err := zzSend(client, server, Flight3, nil); a != nil || err != nil {
+		if _, a, err := zzRoSend(client, server, Flight3, nil); a != nil || err != nil {
 			zzsymFail("client_hello_retry_failed")
 		}
 		if offered {
@@ -167,9 +172,9 @@ func zzClientResumeDecision() {
 		CompressionMethod: dtlsflight.DefaultCompressionMethods()[0],
 	}}
 	sh.Header.MessageSequence = uint16(rounds)
-	client.cache.Push(zzRaw(sh), 0, uint16(rounds), handshake.TypeServerHello, false)
+	client.cache.Push(zzRoRaw(sh), 0, uint16(rounds), handshake.TypeServerHello, false)
 
-	next, a, err := zzRecv(client, cur)
+	next, a, err := zzRoRecv(client, cur)
 	// neither path can finish here: the server's Finished / ServerHelloDone have not arrived
 	zzsymAssert(next == 0 && a == nil && err == nil, "client_waits_for_rest_of_server_flight")
 
@@ -186,13 +191,13 @@ func zzClientResumeDecision() {
 	zzsymAssert(zzsymNot(echo), "echoed_id_takes_abbreviated_path")
 
 	// a second datagram with nothing new: the decision must not change
-	next, a, err = zzRecv(client, cur)
+	next, a, err = zzRoRecv(client, cur)
 	zzsymAssert(next == 0 && a == nil && err == nil, "client_still_waits")
 	zzsymAssert(client.suite.inits == 0, "repeated_parse_initialises_no_keys")
 
 	// the rest of a full PSK server flight: ServerHelloDone
-	client.cache.Push(zzHS(uint16(rounds+1), &handshake.MessageServerHelloDone{}), 0, uint16(rounds+1), handshake.TypeServerHelloDone, false)
-	next, a, err = zzRecv(client, cur)
+	client.cache.Push(zzRoHS(uint16(rounds+1), &handshake.MessageServerHelloDone{}), 0, uint16(rounds+1), handshake.TypeServerHelloDone, false)
+	next, a, err = zzRoRecv(client, cur)
 	zzsymAssert(next == Flight5 && a == nil && err == nil, "client_continues_full_handshake")
 	zzsymAssert(client.suite.inits == 0, "full_handshake_no_keys_from_store")
 	zzsymAssert(len(client.state.MasterSecret) == 0, "full_handshake_drops_stored_secret")
@@ -209,3 +214,22 @@ func zzClientResumeDecision() {
 		zzsymCover("full_other_id")
 	}
 }
+
+func zzRoRaw(h *handshake.Handshake) []byte {
+	raw, err := h.Marshal()
+	if err != nil {
+		zzsymFail("harness_marshal_failed")
+	}
+
+	return raw
+}
+
+var zzRoClientKey = []byte("10.0.0.1:4444_srv")
+
+func zzRoHS(seq uint16, m handshake.Message) []byte {
+	h := &handshake.Handshake{Message: m}
+	h.Header.MessageSequence = seq
+
+	return zzRoRaw(h)
+}
+
